@@ -115,13 +115,36 @@ PROPS["C17"] = {
 PROPS["C06"] = {
     "harnesses": [
         {"pkg": ".", "dir": "s3db", "entry": "VerifH_C06_scan",
-         "quick": {"params": "keys=3,constraints=1,maxlayer=1,nulls=1,reopen=0", "workers": 16, "timeout": 1200},
+         "quick": {"params": "keys=3,constraints=1,maxlayer=1,nulls=1,reopen=0,dels=2,orders=3", "workers": 16, "timeout": 1200},
          "thorough": {"params": "keys=3,constraints=2,maxlayer=2,nulls=1", "workers": 16, "timeout": 6000}},
     ],
     "bounds": {"quick": "3 symbolic INT keys (full int64) with uninterpreted layers 0..2 (entries_per_node 2: every tree shape of height <= 2), optionally one deleted row, optionally commit + re-open; 0..1 key constraints from {=,<,<=,>=,>} with symbolic INT or NULL operand; ORDER BY none/key asc/key desc/non-key",
                "thorough": "0..2 constraints"},
     "outside": "SQLite's planner/VM (LIMIT, aggregates, IN expansion, affinity), cgo value conversion; TEXT/BLOB/REAL keys in scans",
     "assumptions": [TIME_RANGE, "SQLite re-checks every constraint on every row (ConstraintUsage.Omit is never set) and passes NULL operands to xFilter"],
+}
+
+PROPS["C11"] = {
+    "harnesses": [
+        {"pkg": ".", "dir": "s3db", "entry": "VerifH_C11_versions",
+         "quick": {"params": "steps=3", "workers": 16, "timeout": 1200},
+         "thorough": {"params": "steps=4", "workers": 16, "timeout": 6000}},
+    ],
+    "bounds": {"quick": "two writers on one bucket, 3 steps from {insert+commit, update+commit, empty commit, refresh (re-open), read-only open by a third party}; every recorded version re-read at the end",
+               "thorough": "4 steps"},
+    "outside": "hash collisions (names are an injective function of content); vacuum between taking and re-reading a version (C09)",
+    "assumptions": [TIME_RANGE],
+}
+
+PROPS["C14"] = {
+    "harnesses": [
+        {"pkg": ".", "dir": "s3db", "entry": "VerifH_C14_faults",
+         "quick": {"params": "kinds=1", "workers": 16, "timeout": 1200},
+         "thorough": {"params": "kinds=2", "workers": 16, "timeout": 3000}},
+    ],
+    "bounds": "5 scenarios {read-only open+scan, writable open+scan, open+insert+commit+scan, range scan, vacuum+scan} x {one version, two unmerged versions} on a depth-2 table; fault position symbolic over every request of the scenario, kind (transport error | deadline) and persistence (single | persistent) symbolic",
+    "outside": "the AWS SDK's own retry loop and wall-clock behaviour; s3db_changes under faults (C12)",
+    "assumptions": [TIME_RANGE, "a fault is an error returned by the object store for the request (transport error or expired deadline); the request has no effect"],
 }
 
 # Properties not (yet) claimed, each with the reason.  Kept current by hand.
